@@ -45,6 +45,12 @@ def apply_op(d, op, world=None):
             ret = getattr(d, kind)(world[op[1]], ignore_conflicts=op[2])
         elif kind in ('remove_empty_objects', 'remove_empty_properties'):
             ret = getattr(d, kind)()
+        elif kind in ('add_object', 'add_property', 'set_object', 'set_property'):
+            # the names arrive as a list, a tuple or a dict key view (re-iterable, insertion ordered): same outcome
+            import zlib
+            v = zlib.crc32(repr(op).encode()) % 3
+            arg = list(op[2]) if v == 0 else tuple(op[2]) if v == 1 else dict.fromkeys(op[2]).keys()
+            ret = getattr(d, kind)(op[1], arg)
         else:
             ret = getattr(d, kind)(*op[1:])
     except (ValueError, KeyError, IndexError, TypeError) as e:
